@@ -10,7 +10,15 @@
    colops           : col_add / col_swap on M -> ColOpsOK
    rank / inverse / nullspace -> RankCorrect / InverseExactlyWhenInvertible, InverseTwoSided /
                       NullShape, NullAnnihilated, NullIndependent, NullCount
-   transpose / vstack / hstack / mul -> equal to the specification's operators
+   transpose / vstack / hstack / mul -> equal to the specification's operators (mul: `form` names which of the four
+                      operand-ownership overloads &a*&b, &a*b, a*&b, a*b computed it; the same MulOK for each)
+   row_weight / weight / unit_rows -> RowWeightOK / WeightOK / UnitRowsOK (the counts of spec/F2.tla).  The helpers return
+                      u8: for a matrix with more than 255 ones weight() cannot return the count (it panics in an
+                      overflow-checked build and wraps otherwise).  C17 promises nothing about Hamming weights beyond
+                      what the type can express, so that case is only COUNTED (stats.weight_overflow, weight_overflow_panics)
+   ctor             : zeros / ones / id / unit_vector of the group's shape -> CtorOK
+   index / index_mut: Index / IndexMut<(usize, usize)> -> IndexOK (all entries read = M), IndexMutOK (out = M with the entries written)
+   display          : the text of Display, line by line -> L1 only (DisplayText; the property fixes no format)
    Matrices with at most 6 rows and 6 columns are judged with the declarative definitions (RowSpace,
    2^rows combinations), larger ones (up to 24 x 24) with RankElim.
    L1 (drift only): ops / result / rank equal those of the transcription GaussImpl, InverseImpl, NullspaceImpl. *)
@@ -19,7 +27,9 @@ VARIABLES l, M, viol, drift, stats
 vars == <<l, M, viol, drift, stats>>
 Init == l = 1 /\ M = <<>> /\ viol = <<>> /\ drift = <<>>
         /\ stats = [matrices |-> 0, big |-> 0, gauss |-> 0, ops |-> 0, rowops |-> 0, rank |-> 0, inverse |-> 0, invertible |-> 0,
-                    nullspace |-> 0, nullvectors |-> 0, algebra |-> 0, panics |-> 0, nontrivial |-> 0]
+                    nullspace |-> 0, nullvectors |-> 0, algebra |-> 0, panics |-> 0, mul_overloads |-> 0, weights |-> 0,
+                    weight_overflow |-> 0, weight_overflow_panics |-> 0, unit_rows_found |-> 0, ctors |-> 0, index |-> 0,
+                    displays |-> 0, nontrivial |-> 0]
 Check1(ok, name) == IF ok THEN <<>> ELSE <<<<l, name>>>>
 Drift1(ok, name) == IF ok THEN <<>> ELSE <<<<l, name>>>>
 Sm == Len(M) <= 6 /\ NCols(M) <= 6
@@ -103,8 +113,48 @@ Step(e) ==
     [] e.k = "mul" ->
          IF e.res # "ok" THEN Panic(e)
          ELSE /\ viol' = Check1(e.out = Mul(M, e.b), "MulOK") \o viol
-              /\ stats' = [stats EXCEPT !.algebra = @ + 1, !.nontrivial = @ + 1]
+              /\ stats' = [stats EXCEPT !.algebra = @ + 1, !.nontrivial = @ + 1,
+                                        !.mul_overloads = @ + B2I(Has(e, "form") /\ e.form # "ref_ref")]
               /\ UNCHANGED <<M, drift>>
+    [] e.k = "row_weight" ->
+         IF e.res # "ok" THEN Panic(e)
+         ELSE /\ viol' = Check1(RowWeightOK(M, e.ret), "RowWeightOK") \o viol
+              /\ stats' = [stats EXCEPT !.weights = @ + 1, !.nontrivial = @ + 1]
+              /\ UNCHANGED <<M, drift>>
+    [] e.k = "weight" ->
+         IF Weight(M) > MaxU8
+         THEN \* the count does not fit the return type: observed, not judged
+              /\ stats' = [stats EXCEPT !.weights = @ + 1, !.weight_overflow = @ + 1, !.weight_overflow_panics = @ + B2I(e.res # "ok")]
+              /\ UNCHANGED <<M, viol, drift>>
+         ELSE IF e.res # "ok" THEN Panic(e)
+         ELSE /\ viol' = Check1(WeightOK(M, e.ret), "WeightOK") \o viol
+              /\ stats' = [stats EXCEPT !.weights = @ + 1, !.nontrivial = @ + 1]
+              /\ UNCHANGED <<M, drift>>
+    [] e.k = "unit_rows" ->
+         IF e.res # "ok" THEN Panic(e)
+         ELSE /\ viol' = Check1(UnitRowsOK(M, e.ret), "UnitRowsOK") \o viol
+              /\ stats' = [stats EXCEPT !.weights = @ + 1, !.unit_rows_found = @ + Len(e.ret), !.nontrivial = @ + 1]
+              /\ UNCHANGED <<M, drift>>
+    [] e.k = "ctor" ->
+         IF e.res # "ok" THEN Panic(e)
+         ELSE /\ viol' = Check1(CtorOK(e.kind, e.rows, e.cols, e.i, e.out) /\ e.nrows = Len(e.out) /\ e.ncols = NCols(e.out), "CtorOK") \o viol
+              /\ stats' = [stats EXCEPT !.ctors = @ + 1, !.nontrivial = @ + 1]
+              /\ UNCHANGED <<M, drift>>
+    [] e.k = "index" ->
+         IF e.res # "ok" THEN Panic(e)
+         ELSE /\ viol' = Check1(e.out = M, "IndexOK") \o viol
+              /\ stats' = [stats EXCEPT !.index = @ + 1, !.nontrivial = @ + 1]
+              /\ UNCHANGED <<M, drift>>
+    [] e.k = "index_mut" ->
+         IF e.res # "ok" THEN Panic(e)
+         ELSE /\ viol' = Check1(e.out = ApplySets(M, e.sets), "IndexMutOK") \o viol
+              /\ stats' = [stats EXCEPT !.index = @ + 1, !.nontrivial = @ + 1]
+              /\ UNCHANGED <<M, drift>>
+    [] e.k = "display" ->
+         LET good == e.res = "ok" /\ e.lines = MatLines(M) /\ e.nl /\ e.ascii IN
+         /\ drift' = Drift1(good, "DisplayText") \o drift
+         /\ stats' = [stats EXCEPT !.displays = @ + 1]
+         /\ UNCHANGED <<M, viol>>
 Next == \/ /\ l <= NLines /\ Step(Rec[l]) /\ l' = l + 1
         \/ /\ l = NLines + 1 /\ Report(l, viol, drift, stats) /\ l' = l + 1 /\ UNCHANGED <<M, viol, drift, stats>>
 =============================================================================
